@@ -50,6 +50,16 @@ RULE = (
     "batch_first reassigned over T in 1..5, N in 1..3; the command runs hundreds of times in one process "
     "with changing flags (cli pass); (6) one larger instance each: 600 frames x 13 coefficients in 7 "
     "blocks, deltas of a 300 x 13 input (orders 2-3, widths 2-3), returns for T=40, N=20. "
+    "Partially specified statistics: for every input subset x every OTHER subset with non-zero deviation as "
+    "the source of supplied statistics: none / mean only / std only / both, through the module constructor "
+    "and the functional's arguments (supplied as float64 and float32), a missing statistic being the "
+    "input's own; own std => unit variance, own mean => zero mean; the same through SpectDataSet(do_mvn, "
+    "feat_mean, feat_std) on the pool as utterances, delta_order 0 and 2. Call variants (modes pass): "
+    "torch.jit.script and torch.jit.trace of MeanVarianceNormalization (all 4 statistic combinations; "
+    "scripted accumulate/store), FeatureDeltas (5 (order,width) x 4 modes x 2 ranks, traced on one T and "
+    "run on T in {1,2,4,5}) and TimeDistributedReturn (4 gammas x 2 layouts); torch.inference_mode; "
+    "float64 as the default dtype; inputs requiring grad followed by backward; one tensor object used as "
+    "mean and std, and handed to accumulate() twice. "
     "All cases distinct by construction (cartesian products of duplicate-free generators). Non-trivial: "
     "MVN history with >=2 chunks; delta case with order>=1; return case with T>=2 and gamma != 0."
 )
@@ -71,6 +81,10 @@ ASSUMPTIONS = [
     "larger returns instance: gamma=2 in float64 only (2^39-weighted sums cancel catastrophically in "
     "float32), gamma=1/2 at 1e-5; T stays below the underflow of gamma^T (DESIGN sec. 4)",
     "guard class 5 (don't-care regions) does not apply to C18: no input position is declared ignored",
+    "partial statistics: a supplied deviation of 0, and a constant coefficient combined with a foreign mean, "
+    "are excluded ((x-mean)/eps with eps=1e-38 overflows float32)",
+    "TorchScript variants: only torch.jit.script / torch.jit.trace of the modules as the repository tests "
+    "build them (PYTORCH_JIT=1 import-time scripting of the functionals is not explored)",
     "TorchScript-compiled and CUDA variants not explored",
 ]
 BUDGET_S = {"quick": 240, "thorough": 2400}
@@ -377,6 +391,7 @@ def _run_mvn_shard(ctx, spec, tier, seed):
                             first = False
                             ctx.sample({"part": "mvn", "history": hist, "rank": rank, "dim": dim,
                                         "bessel": bessel, "chunk_frames": [len(chunks[c]) for c in ids]})
+    _run_partial(ctx, chunks, ids[:4], rank, pos, dim, dtname)
     ctx.count("mvn histories per layout", sum(1 for k in range(1, len(ids) + 1)
                                               for s in itertools.combinations(ids, k)
                                               for _ in O.histories(list(s))))
@@ -876,6 +891,336 @@ def _run_large(ctx, spec, tier, seed):
     ctx.sample({"part": "large", "which": which})
 
 
+# ============================================= partially specified statistics / call variants
+WHICH = ("none", "mean", "std", "both")
+VARIANTS = ("eager", "script", "trace", "inference", "default64", "grad", "shared")
+
+
+def _mvn_partial(ctx, frames, stat_frames, which, route, rank, pos, dim, dtname, variant="eager", statdt="float64"):
+    """mean only / std only / both / none, supplied from OTHER data (stat_frames), through the module
+    constructor or the functional's keyword arguments: a missing statistic is the input's own.
+    variant: how the call is made (plain, scripted module, traced module, inside inference_mode,
+    with float64 as default dtype, input requiring grad, one tensor object for mean and std)."""
+    dtype = DTYPES[dtname]
+    nfeat = len(frames[0])
+    case = {"kind": "partial", "frames": frames, "stat_frames": stat_frames, "which": which, "route": route,
+            "rank": rank, "pos": pos, "dim": dim, "dtype": dtname, "variant": variant, "statdt": statdt}
+    ctx.case(1, 1 if which in ("mean", "std") else 0)
+    api = "mean_var_norm" if route == "functional" else "MeanVarianceNormalization"
+    sig = {"api": api, "given": which, "variant": variant}
+    tol = 1e-9 if dtname == "float64" and statdt == "float64" else 2e-5
+    smean, sstd, _ = O.pooled_stats(stat_frames, False)
+    if variant == "shared":  # one tensor object serves as mean and as std
+        smean = sstd = [abs(m) + 1.0 for m in smean]
+    own_mean, own_std, zero = O.pooled_stats(frames, False)
+    if which == "mean" and any(zero):
+        # own deviation 0 but a foreign mean: (x - mean) / eps with eps = 1e-38 overflows float32
+        ctx.count("constant coefficient with a foreign mean (skipped)")
+        return
+    emean = smean if which in ("mean", "both") else own_mean
+    estd = sstd if which in ("std", "both") else own_std
+    prev_default = torch.get_default_dtype()
+    try:
+        if variant == "default64":
+            torch.set_default_dtype(torch.float64)
+        mean_t = torch.tensor(smean, dtype=DTYPES[statdt]) if which in ("mean", "both") else None
+        std_t = torch.tensor(sstd, dtype=DTYPES[statdt]) if which in ("std", "both") else None
+        if variant == "shared" and which == "both":
+            std_t = mean_t
+        keep = [(t, t.clone()) for t in (mean_t, std_t) if t is not None]
+        x = _layout(frames, rank, pos, dtype)
+        if variant == "grad":
+            x = x.clone().requires_grad_(True)
+        xc = x.detach().clone()
+        if route == "functional":
+            fn = lambda t: F.mean_var_norm(t, dim, mean_t, std_t)  # noqa: E731
+        else:
+            fn = M.MeanVarianceNormalization(dim, mean_t, std_t)
+            if variant == "script":
+                fn = torch.jit.script(fn)
+            elif variant == "trace":
+                ex_shape = [1] * rank
+                ex_shape[pos] = nfeat
+                fn = torch.jit.trace(fn, (torch.zeros(ex_shape, dtype=dtype),))
+        if variant == "inference":
+            with torch.inference_mode():
+                y = fn(x)
+        else:
+            y = fn(x)
+        if variant == "grad":
+            y.sum().backward()
+            y = y.detach()
+        if not _args_unchanged(ctx, api, case, [(x.detach(), xc)] + keep):
+            return
+    except Exception as e:
+        ctx.violation(dict(sig, symptom="raises", type=type(e).__name__), case, {"error": str(e)[-300:]})
+        return
+    finally:
+        torch.set_default_dtype(prev_default)
+    if y.dtype != dtype or tuple(y.shape) != tuple(x.shape):
+        ctx.violation(dict(sig, symptom="wrong-shape-or-dtype"), case, {"shape": tuple(y.shape), "dtype": str(y.dtype)})
+        return
+    yf = _unlayout(y, pos, nfeat)
+    exp = O.normalise(frames, emean, estd, EPS)
+    bad = [(i, f) for i in range(len(frames)) for f in range(nfeat) if not _close(yf[i][f], exp[i][f], tol)]
+    if bad:
+        ctx.violation(dict(sig, symptom="normalised-values-differ-from-definition"), case,
+                      {"mean_used": emean, "std_used": estd, "expected": exp, "observed": yf, "bad": bad[:5]})
+        return
+    # the clauses themselves: own std => unit variance, own mean => zero mean (whatever the other one is)
+    mom = O.moments(yf, False)
+    for f, (m, v) in enumerate(mom):
+        if which in ("none", "std") and not zero[f] and not _close(m, 0.0, 10 * tol * (1 + 1 / estd[f])):
+            ctx.violation(dict(sig, symptom="normalised-mean-not-zero"), case, {"coefficient": f, "mean": m})
+            return
+        if which in ("none", "mean") and not zero[f] and not _close(v, 1.0, 10 * tol):
+            ctx.violation(dict(sig, symptom="normalised-variance-not-one"), case, {"coefficient": f, "variance": v})
+            return
+    ctx.outcome([which] + [round(v * 1024) for v in exp[0]])
+
+
+def _stat_sources(chunks, ids):
+    """subsets whose pooled deviation is non-zero in every coefficient (a supplied std of 0 is clamped
+    to eps=1e-38 and overflows float32 - outside the alphabet)."""
+    out = []
+    for k in range(1, len(ids) + 1):
+        for sub in itertools.combinations(ids, k):
+            fr = _frames_of(chunks, sub)
+            if len(fr) >= 2 and not any(O.pooled_stats(fr, False)[2]):
+                out.append(sub)
+    return out
+
+
+def _run_partial(ctx, chunks, ids, rank, pos, dim, dtname):
+    srcs = _stat_sources(chunks, ids)
+    n = 0
+    for k in range(1, len(ids) + 1):
+        for subset in itertools.combinations(ids, k):
+            frames = _frames_of(chunks, subset)
+            for src in srcs:
+                if src == subset:
+                    continue
+                sfr = _frames_of(chunks, src)
+                for which in WHICH:
+                    n += 1
+                    for route in ("module", "functional"):
+                        _mvn_partial(ctx, frames, sfr, which, route, rank, pos, dim, dtname, "eager",
+                                     "float64" if n % 2 else "float32")
+
+
+def _dataset_case(ctx, chunks, ids, src, which, delta_order, seed):
+    """SpectDataSet(do_mvn=True, feat_mean=?, feat_std=?): every utterance is normalised with the supplied
+    statistics, a missing one being the utterance's own; delta_order>0 appends the deltas afterwards."""
+    from pydrobert.torch.data import SpectDataSet, SpectDataParams
+
+    api = "SpectDataSet(do_mvn)"
+    case = {"kind": "dataset", "chunks": {str(c): chunks[c] for c in ids}, "src": list(src), "which": which,
+            "delta_order": delta_order, "seed": seed}
+    ctx.case(1, 1 if which in ("mean", "std") else 0)
+    sig = {"api": api, "given": which, "delta_order": delta_order}
+    root = os.path.join(_scratch(), "ds")
+    shutil.rmtree(root, ignore_errors=True)
+    os.makedirs(os.path.join(root, "feat"))
+    try:
+        for c in ids:
+            torch.save(torch.tensor(chunks[c], dtype=torch.float32), os.path.join(root, "feat", f"utt{c}.pt"))
+        smean, sstd, _ = O.pooled_stats(_frames_of(chunks, src), False)
+        params = SpectDataParams(do_mvn=True, delta_order=delta_order)
+        ds = SpectDataSet(root, params=params,
+                          feat_mean=torch.tensor(smean) if which in ("mean", "both") else None,
+                          feat_std=torch.tensor(sstd) if which in ("std", "both") else None,
+                          suppress_alis=True, tokens_only=False)
+        if len(ds) != len(ids):
+            raise AssertionError(f"{len(ds)} utterances, expected {len(ids)}")
+        for n, c in enumerate(ids):  # utt ids sort like the chunk ids
+            feat = ds[n][0]
+            frames = chunks[c]
+            own_mean, own_std, zero = O.pooled_stats(frames, False)
+            emean = smean if which in ("mean", "both") else own_mean
+            estd = sstd if which in ("std", "both") else own_std
+            if any(zero) and which in ("none", "mean"):
+                continue  # single-frame utterance: own deviation 0, clamped by eps
+            norm = O.normalise(frames, emean, estd, EPS)
+            shape = (len(frames), len(frames[0]))
+            exp, eshape = O.deltas(O.to_dict(norm, shape), shape, -1, -2, True, delta_order, 2, "replicate", 0.0)
+            got = feat.tolist()
+            if tuple(feat.shape) != tuple(eshape) or any(
+                    not _close(O.nested_get(got, idx), exp[idx], 5e-5) for idx in O.indices(eshape)):
+                ctx.violation(dict(sig, symptom="features-differ-from-definition"), case,
+                              {"utterance": c, "expected": [exp[i] for i in O.indices(eshape)], "observed": got})
+                return
+    except Exception as e:
+        ctx.violation(dict(sig, symptom="raises", type=type(e).__name__), case, {"error": str(e)[-300:]})
+
+
+def _run_dataset(ctx, spec, tier, seed):
+    chunks = _chunks("quick", seed, 3)
+    ids = sorted(chunks)
+    try:
+        for src in _stat_sources(chunks, ids):
+            for which in WHICH:
+                for delta_order in (0, 2):
+                    _dataset_case(ctx, chunks, ids, src, which, delta_order, seed)
+        ctx.sample({"part": "dataset", "utterances": [len(chunks[c]) for c in ids], "given": WHICH})
+    finally:
+        shutil.rmtree(f"/dev/shm/verif-{os.getpid()}", ignore_errors=True)
+
+
+def _run_modes(ctx, spec, tier, seed):
+    """(8)-(10): scripted / traced modules (as tests/test_feats.py and tests/test_rl.py build them),
+    inference_mode, float64 as the default dtype, inputs requiring grad, one tensor object passed twice."""
+    which_part = spec["which"]
+    if which_part == "mvn":
+        chunks = _chunks("quick", seed, 3)
+        ids = sorted(chunks)
+        full = _frames_of(chunks, ids)
+        inputs = [(full, _frames_of(chunks, ids[1:3])), (_frames_of(chunks, ids[2:]), full)]
+        for variant in VARIANTS[1:]:
+            for rank, pos, dim in ((2, 1, -1), (2, 0, 0), (3, 1, 1), (3, 0, -3)):
+                for frames, sfr in inputs:
+                    for which in (("both",) if variant == "shared" else WHICH):
+                        routes = ("module",) if variant in ("script", "trace") else ("module", "functional")
+                        for route in routes:
+                            for dtname in ("float32", "float64"):
+                                _mvn_partial(ctx, frames, sfr, which, route, rank, pos, dim, dtname, variant)
+        # a scripted module accumulates and stores like the plain one (tests/test_feats.py, style 'accum');
+        # the same tensor object handed to accumulate() twice counts twice
+        for bessel in (False, True):
+            for scripted in (False, True):
+                case = {"kind": "modes-accum", "seed": seed, "bessel": bessel, "scripted": scripted}
+                ctx.case(1, 1)
+                try:
+                    mvn = M.MeanVarianceNormalization(-1)
+                    if scripted:
+                        mvn = torch.jit.script(mvn)
+                    x = _layout(chunks[ids[2]], 2, 1, torch.float32)
+                    for t in (x, x, _layout(chunks[ids[1]], 3, 2, torch.float32)):
+                        mvn.accumulate(t)
+                    mvn.store(bessel=bessel)
+                    _cmp_stats(ctx, "MeanVarianceNormalization", case, mvn.mean, mvn.std,
+                               chunks[ids[2]] * 2 + chunks[ids[1]], bessel,
+                               {"variant": "script" if scripted else "same-object-twice"})
+                except Exception as e:
+                    ctx.violation({"api": "MeanVarianceNormalization", "symptom": "raises", "type": type(e).__name__,
+                                   "variant": "script" if scripted else "same-object-twice"}, case,
+                                  {"error": str(e)[-300:]})
+    elif which_part == "deltas":
+        n = 0
+        for order, width in ((0, 1), (1, 1), (1, 2), (2, 1), (2, 2)):
+            for mode in PAD_MODES:
+                for rank in (2, 3):
+                    dims = _delta_dims(rank)
+                    dim, time_dim, concatenate = dims[(7 * n + 3) % len(dims)]
+                    n += 1
+                    for variant in ("script", "trace", "inference", "default64", "grad"):
+                        for T in (1, 2, 4, 5):
+                            shape = _delta_shape(rank, T, time_dim % rank)
+                            _delta_variant(ctx, _delta_values(shape, seed), shape, dim, time_dim, concatenate,
+                                           order, width, mode, variant)
+    else:
+        rng = random.Random(f"c18-modes-ret-{seed}")
+        for gamma in GAMMAS:
+            for batch_first in (False, True):
+                for variant in ("script", "trace", "inference", "default64", "grad"):
+                    for T, N in ((1, 1), (3, 2), (4, 3), (2, 1)):
+                        cols = [[rng.choice(REWARDS) for _ in range(T)] for _ in range(N)]
+                        _return_variant(ctx, cols, gamma, batch_first, variant)
+    ctx.sample({"part": "modes", "which": which_part, "variants": VARIANTS[1:]})
+
+
+_JIT = {}
+
+
+def _delta_variant(ctx, flat, shape, dim, time_dim, concatenate, order, width, mode, variant):
+    T = shape[time_dim % len(shape)]
+    if not O.pad_admitted(T, order * width, mode):
+        return
+    case = {"kind": "delta-variant", "flat": flat, "shape": list(shape), "dim": dim, "time_dim": time_dim,
+            "concatenate": concatenate, "order": order, "width": width, "mode": mode, "variant": variant}
+    ctx.case(1, 1 if order else 0)
+    sig = {"api": "FeatureDeltas", "variant": variant, "mode": mode, "concatenate": concatenate}
+    dtype = torch.float64 if variant == "default64" else torch.float32
+    prev_default = torch.get_default_dtype()
+    try:
+        if variant == "default64":
+            torch.set_default_dtype(torch.float64)
+        x = torch.tensor(flat, dtype=dtype).view(shape)
+        key = (variant, dim, time_dim, concatenate, order, width, mode, len(shape))
+        if variant in ("script", "trace"):
+            if key not in _JIT:
+                mod = M.FeatureDeltas(dim, time_dim, concatenate, order, width, mode)
+                if variant == "script":
+                    _JIT[key] = torch.jit.script(mod)
+                else:  # traced on a different T, run on this one
+                    ex = list(shape)
+                    ex[time_dim % len(shape)] = 3 if O.pad_admitted(3, order * width, mode) else 2 * order * width + 1
+                    _JIT[key] = torch.jit.trace(mod, (torch.zeros(ex),))
+            y = _JIT[key](x)
+        elif variant == "inference":
+            with torch.inference_mode():
+                y = M.FeatureDeltas(dim, time_dim, concatenate, order, width, mode)(x)
+        elif variant == "grad":
+            xg = x.clone().requires_grad_(True)
+            y = F.feat_deltas(xg, dim, time_dim, concatenate, order, width, mode)
+            y.sum().backward()
+            y = y.detach()
+        else:
+            y = M.FeatureDeltas(dim, time_dim, concatenate, order, width, mode)(x)
+    except Exception as e:
+        ctx.violation(dict(sig, symptom="raises", type=type(e).__name__, order_ge_1=order >= 1), case,
+                      {"error": str(e)[-300:]})
+        return
+    finally:
+        torch.set_default_dtype(prev_default)
+    exp, eshape = O.deltas(O.to_dict(x.tolist(), shape), shape, dim, time_dim, concatenate, order, width, mode, 0.0)
+    got = y.tolist()
+    if tuple(y.shape) != tuple(eshape) or y.dtype != dtype or any(
+            not _close(O.nested_get(got, idx), exp[idx], 2e-5) for idx in O.indices(eshape)):
+        ctx.violation(dict(sig, symptom="variant-differs-from-definition"), case,
+                      {"expected_shape": eshape, "observed_shape": tuple(y.shape), "dtype": str(y.dtype),
+                       "observed": got})
+
+
+def _return_variant(ctx, cols, gamma, batch_first, variant):
+    N, T = len(cols), len(cols[0])
+    case = {"kind": "return-variant", "cols": cols, "gamma": gamma, "batch_first": batch_first, "variant": variant}
+    ctx.case(1, 1 if T >= 2 and gamma else 0)
+    sig = {"api": "TimeDistributedReturn", "variant": variant, "gamma": gamma, "batch_first": batch_first}
+    dtype = torch.float64 if variant == "default64" else torch.float32
+    prev_default = torch.get_default_dtype()
+    try:
+        if variant == "default64":
+            torch.set_default_dtype(torch.float64)
+        r = torch.tensor(cols, dtype=dtype).view(N, T)
+        r = r if batch_first else r.t()
+        key = (variant, gamma, batch_first)
+        if variant in ("script", "trace"):
+            if key not in _JIT:
+                mod = M.TimeDistributedReturn(gamma, batch_first)
+                _JIT[key] = torch.jit.script(mod) if variant == "script" else torch.jit.trace(mod, (torch.zeros(2, 2),))
+            R = _JIT[key](r)
+        elif variant == "inference":
+            with torch.inference_mode():
+                R = F.time_distributed_return(r, gamma, batch_first)
+        elif variant == "grad":
+            rg = r.clone().requires_grad_(True)
+            R = M.TimeDistributedReturn(gamma, batch_first)(rg)
+            R.sum().backward()
+            R = R.detach()
+        else:
+            R = M.TimeDistributedReturn(gamma, batch_first)(r)
+    except Exception as e:
+        ctx.violation(dict(sig, symptom="raises", type=type(e).__name__), case, {"error": str(e)[-300:]})
+        return
+    finally:
+        torch.set_default_dtype(prev_default)
+    got = (R if batch_first else R.t()).tolist()
+    exp = [O.returns(c, gamma) for c in cols]
+    if tuple(R.shape) != tuple(r.shape) or any(
+            not _close(got[n][t], exp[n][t], 1e-6) for n in range(N) for t in range(T)):
+        ctx.violation(dict(sig, symptom="variant-differs-from-definition"), case, {"expected": exp, "observed": got})
+
+
 # =============================================================================== driver
 def shards(tier, seed):
     out = []
@@ -918,11 +1263,13 @@ def shards(tier, seed):
     out.append({"part": "history", "which": "returns"})
     for which in ("mvn", "deltas", "returns"):
         out.append({"part": "large", "which": which})
+        out.append({"part": "modes", "which": which})
+    out.append({"part": "dataset"})
     # heavy shards first so the pool stays busy
     weight = {"returns": 0, "deltas": 1, "mvn": 2, "cli": 3, "guards-returns": 0, "guards-deltas": 1,
-              "guards-mvn": 2, "history": 3, "large": 1}
+              "guards-mvn": 2, "history": 3, "large": 1, "modes": 0, "dataset": 2}
     # (the cheap history / large parts come first so that a tight wall budget can never skip them)
-    out.sort(key=lambda s: (-1 if s["part"] in ("history", "large") else
+    out.sort(key=lambda s: (-1 if s["part"] in ("history", "large", "modes", "dataset") else
                             0 if (s["part"] == "returns" and s.get("hi")) else 1, weight[s["part"]]))
     return out
 
@@ -946,6 +1293,10 @@ def run_shard(spec, tier, seed):
         _run_history(ctx, spec, tier, seed)
     elif part == "large":
         _run_large(ctx, spec, tier, seed)
+    elif part == "modes":
+        _run_modes(ctx, spec, tier, seed)
+    elif part == "dataset":
+        _run_dataset(ctx, spec, tier, seed)
     else:
         _run_return_shard(ctx, spec, tier, seed)
     return ctx
@@ -975,6 +1326,23 @@ def replay(case):
     elif kind == "return":
         _return_batch(ctx, case["cols"], case["gamma"], case["batch_first"], case["dtype"], case["api"],
                       case.get("layout", "as-is"), case.get("guard", False), case.get("tol", 1e-6))
+    elif kind == "partial":
+        _mvn_partial(ctx, case["frames"], case["stat_frames"], case["which"], case["route"], case["rank"],
+                     case["pos"], case["dim"], case["dtype"], case["variant"], case["statdt"])
+    elif kind == "dataset":
+        chunks = {int(k): v for k, v in case["chunks"].items()}
+        try:
+            _dataset_case(ctx, chunks, sorted(chunks), tuple(case["src"]), case["which"], case["delta_order"],
+                          case["seed"])
+        finally:
+            shutil.rmtree(f"/dev/shm/verif-{os.getpid()}", ignore_errors=True)
+    elif kind == "delta-variant":
+        _delta_variant(ctx, case["flat"], tuple(case["shape"]), case["dim"], case["time_dim"], case["concatenate"],
+                       case["order"], case["width"], case["mode"], case["variant"])
+    elif kind == "return-variant":
+        _return_variant(ctx, case["cols"], case["gamma"], case["batch_first"], case["variant"])
+    elif kind == "modes-accum":
+        _run_modes(ctx, {"which": "mvn"}, "quick", case["seed"])
     elif kind == "history-deltas":
         _history_deltas(ctx, case["seed"], case["order"], case["width"])
     elif kind == "history-mvn":
